@@ -45,10 +45,13 @@ SPECTRA = [
 ]
 
 
-def _pit(A, k, tol, seed, ev=True):
+def _pit(A, k, tol, seed, ev=True, sparse=False):
     u = lib().utils
     np.random.seed(seed)
     with contextlib.redirect_stdout(io.StringIO()):
+        if sparse:                      # the same matrix handed over in the library's sparse container (storage variants cycle)
+            from ..qlib import sp_quat
+            return u.power_iteration(sp_quat(A), max_iterations=k, tol=tol, return_eigenvalue=ev)
         return u.power_iteration(q_from_float(A), max_iterations=k, tol=tol, return_eigenvalue=ev)
 
 
@@ -89,7 +92,7 @@ def _case(args):
         _pit(E.herm_from_spectrum(U, list(np.roll(lam, 1))), 4000, tol, seed)
         _pit(E.herm_from_spectrum(U, [1.5 * abs(l1) * (1 if l1 > 0 else -1) - x for x in lam]), 4000, tol, seed + 1)
     # the run a user makes: enough iterations
-    v, e = _pit(A, 4000, tol, seed)
+    v, e = _pit(A, 4000, tol, seed, sparse=(tid % 3 == 2))
     vf = q_to_float(np.asarray(v)).reshape(n, 1, 4)
     fin = bool(np.all(np.isfinite(vf)) and math.isfinite(float(e)))
     l1q = np.zeros((1, 1, 4))
